@@ -109,6 +109,7 @@ type Spec struct {
 	Lemmas    []*Lemma
 	Writers   []*WritersRule
 	Tables    []*TableRule
+	Guarded   []*GuardRule
 	Rules     []*Rule
 	Order     []string
 }
@@ -264,6 +265,12 @@ func (sp *Spec) parseFile(path string) error {
 			}
 			rule.Inv = inv
 			cur.Reacquire = append(cur.Reacquire, rule)
+		case "guarded":
+			gr, err := parseGuarded(rc.text, path, rc.line)
+			if err != nil {
+				return fmt.Errorf("%s:%d: %v", path, rc.line, err)
+			}
+			sp.Guarded = append(sp.Guarded, gr)
 		case "table":
 			t, err := parseTable(rc.text, path, rc.line)
 			if err != nil {
